@@ -530,12 +530,14 @@ Placeable(v, k) ==
          IF s = "dns" /\ v < 2 THEN b["coredns"].v = "sec" ELSE b[s].v = "sec"
     /\ (v < 2 => k # "dns")
 
-DevCell(c, kind) ==
+\* ({} put where a section lives is a section without children; elsewhere it
+\* is an opaque value that steps may move or wrap.)
+DevCell(k, c, kind) ==
     CASE kind = "absent" -> Absent
       [] kind = "null" -> Null
       [] kind = "float" -> C("float", "lit:1.5")
       [] kind = "str" -> C("str", "lit:\"zz\"")
-      [] kind = "empty" -> SecC
+      [] kind = "empty" -> IF k \in Secs \cup {"coredns"} THEN SecC ELSE C("obj", "lit:{}")
       [] kind = "emptylist" -> C("list", "lit:[]")
       [] kind = "zero" -> C("int", "lit:0")
       [] kind = "seven" -> C("int", "lit:7")
@@ -553,7 +555,7 @@ Inside(v, k) ==
 
 ApplyDev(d, v, dev) ==
     LET ins == Inside(v, dev.k) IN
-    [k \in Keys |-> IF k = dev.k THEN DevCell(d[k], dev.d) ELSE IF k \in ins THEN Absent ELSE d[k]]
+    [k \in Keys |-> IF k = dev.k THEN DevCell(k, d[k], dev.d) ELSE IF k \in ins THEN Absent ELSE d[k]]
 
 RECURSIVE ApplyDevs(_, _, _)
 ApplyDevs(d, v, devs) == IF devs = <<>> THEN d ELSE ApplyDevs(ApplyDev(d, v, Head(devs)), v, Tail(devs))
